@@ -72,6 +72,11 @@ def gen_cases(rng, tier):
       S = list(sp)
     elif cls == "unknown":
       S = rng.sample(sp, rng.randint(0, len(sp))) + [rng.choice(["Zz", "Q9", "Xx"])]
+      if (i // 6) % 2 == 1:
+        # an unknown label that is a species of the file with white space at its edge ('Al ' - no entry of a file can mention
+        # it: labels are read without their surrounding blanks): S is a set of labels, compared as given (seeded change C13r10)
+        x_ = rng.choice(sp)
+        S = [y_ for y_ in S if y_ != x_] + [[x_ + " ", "\t" + x_, " " + x_ + " ", x_ + "\u00a0"][(i // 12) % 4]]
       rng.shuffle(S)
     else:
       S = []
